@@ -2,7 +2,7 @@
 HOOK_COMMITS = ["400b3e9"]
 ENGINES = [
     dict(name="driver", path="vf/driver.py", serves_properties=[], kind_free_text="builds targets against /repo's current tree, runs shards on 16 cores, merges reports, known-findings logic, evidence writer"),
-    dict(name="corpus+slots", path="vf/gen.py harness/engine.hpp harness/corpus_main.hpp model/peg_model.hpp", serves_properties=["C01", "C02", "C09"], kind_free_text="generate-compile-run grammar corpus and slot shapes, observer control with match() wrapper, reference PEG model, rapidcheck scripts"),
+    dict(name="corpus+slots", path="vf/gen.py harness/engine.hpp harness/corpus_main.hpp model/peg_model.hpp", serves_properties=["C01", "C02", "C04", "C05", "C08", "C09"], kind_free_text="generate-compile-run grammar corpus and slot shapes, observer control with match() wrapper, reference PEG model, rapidcheck scripts"),
     dict(name="zoo", path="targets/c02_zoo.cpp", serves_properties=["C02"], kind_free_text="rule zoo: every hand-written match() rule in rewinding contexts on exhaustive short inputs, invariants from the observer control"),
     dict(name="enumerators+rapidcheck", path="targets/", serves_properties=["C17"], kind_free_text="total enumeration of finite spaces plus rapidcheck generators, explicit independent oracles"),
 ]
@@ -22,6 +22,24 @@ CLAIMS = {
         text="Exploration: the rewind invariant is evaluated at every rule invocation (pointer, byte, line, column; look-ahead never moves; success never moves backwards) for ~80 hand-written-match rules in 6-7 rewinding contexts x 3 action attachments x eager/lazy on all strings to length 4..9, for every combinator over adversarial slots entered under required, and for random grammars. Found the integer-rule and raw_string defects (both fixed).",
         design_ref="DESIGN.md sections 1.2, 1.3, 2 C02",
         note="Trusted: the monitor (harness/engine.hpp) and the snapshot it takes of the input; the guarded bump hook only feeds the non-triviality counter."),
+    "C04": dict(
+        engine="corpus+slots",
+        technique="generated grammars with scripted void/bool actions, transactional action log vs the reference model's derivation, per-invocation invariants; exhaustive short inputs + rapidcheck scripts",
+        text="Exploration: for every successful run the surviving action invocations (transactional log, truncated whenever an enclosing rule fails or unwinds) must equal the reference interpreter's derivation in order, rule and span; every single invocation is checked for begin/end, apply mode, look-ahead nesting, 'rule really matched this span' and 'formalism evaluates this rule here with actions enabled'; vetoes must rewind. Vetoing/throwing actions are placed only where documentation and implementation agree on the apply mode.",
+        design_ref="DESIGN.md sections 1.2, 1.8, 2 C04",
+        note=CORPUS_NOTE),
+    "C05": dict(
+        engine="corpus+slots",
+        technique="generated grammars with must/raise/try_catch rules, raising slots and throwing scripted actions; exception identity/position/what() compared with the reference model's first global failure",
+        text="Exploration: the model computes the first global failure in PEG evaluation order (blamed rule, message incl. custom error_message / raise_message, nestedness, lower bound of the position, serial number of foreign exceptions) and the conversions performed by all eight try_catch rules; the implementation's exception at the parse() call site must agree, its byte must lie in [start of blamed attempt, end], line/column must be the ones of that byte and what() must equal source:line:column: message. One open finding (lazy tracking inside rematch) is reported as KNOWN-FINDING.",
+        design_ref="DESIGN.md section 2 C05",
+        note=CORPUS_NOTE),
+    "C08": dict(
+        engine="corpus+slots",
+        technique="hook-protocol state machine per rule attempt evaluated by a match()-wrapping observer control (directly, through state_control, and through coverage<>) over generated grammars, slots, throwing actions",
+        text="Exploration: every rule attempt of every run is a frame; the control's hooks are checked against it (start once; apply after nested attempts closed; exactly one of success/failure/unwind, matching the way the attempt ended; none for disabled controls; raise only in must/raise rules), for controls with and without unwind(), for the same observer wrapped in state_control (whose state must see a balanced protocol for ALL rules) and for coverage<> (start == success+failure+unwind per rule and branch). Found the missing unwind for exceptions thrown by a rule's own action (fixed, 9185533).",
+        design_ref="DESIGN.md sections 1.2, 2 C08",
+        note=CORPUS_NOTE + " coverage<> throws std::out_of_range for rep_min_max/strict/star_strict grammars (observation O12): those runs are counted inconclusive."),
     "C09": dict(
         engine="corpus+slots",
         technique="slot-scripted rule shapes (rapidcheck) + generated grammars + exhaustive short inputs, differential against the documented expansion evaluated by a reference PEG interpreter",
